@@ -215,11 +215,35 @@ func (rn *runner) bigWrapCase(g *gen) {
 	m := methods[g.r.Intn(len(methods))]
 	bx, by := g.bigValue(), g.bigValue()
 	k := uint(g.r.Intn(200))
-	in := fmt.Sprintf("%s %s %s %d", m, bx.String(), by.String(), k)
-	rn.rawCase("bigwrap", in, true, "bigwrap-"+m, func() string {
+	// alias pattern between receiver and operands (math/big, the reference, is alias-safe: its result is
+	// computed from the operand values on separate objects)
+	pat := ""
+	switch m {
+	case "And", "Or", "Xor", "AndNot", "Div", "Mod", "DivMod", "Exp", "Not", "Lsh", "Rsh", "SetBit":
+		pat = []string{"", "", "@z=x", "@z=y", "@x=y", "@z=x=y"}[g.r.Intn(6)]
+		if (m == "Not" || m == "Lsh" || m == "Rsh" || m == "SetBit" || m == "Exp") && pat != "" {
+			pat = "@z=x"
+		}
+	}
+	if pat == "@x=y" || pat == "@z=x=y" {
+		by = new(big.Int).Set(bx)
+	}
+	in := fmt.Sprintf("%s%s %s %s %d", m, pat, bx.String(), by.String(), k)
+	rn.rawCase("bigwrap", in, true, "bigwrap-"+m+pat, func() string {
 		x := new(apd.BigInt).SetMathBigInt(bx)
 		y := new(apd.BigInt).SetMathBigInt(by)
 		z := new(apd.BigInt).SetMathBigInt(g0)
+		switch pat {
+		case "@z=x":
+			z = x
+		case "@z=y":
+			z = y
+		case "@x=y":
+			y = x
+		case "@z=x=y":
+			y = x
+			z = x
+		}
 		bz := new(big.Int).Set(g0)
 		res, ref := "skip", "skip"
 		switch m {
